@@ -4,7 +4,7 @@ use crate::dewey::{verif_in, DeweyVersion};
 
 /// Tokeniser: real `DeweyVersion::new` against `spec::tokenise` for every ASCII string.
 pub fn h_tokeniser() {
-    let s = sym::any_str("s", "ascii", 0, sym::bound(4, 6));
+    let s = sym::any_str("s", "ascii", 0, sym::bound(4, 5));
     let got = DeweyVersion::new(&s);
     let (gv, gr) = verif_in::parts(&got);
     sym::observe_usize("ncomps", gv.len());
@@ -126,26 +126,33 @@ pub fn h_glue() {
     sym::check("C01/best", dubious | sv.has_letter | sw.has_letter | okb);
 }
 
-/// Grammar-directed versions (reaches `1.0alpha1nb17`-sized strings): up to 4 (quick) / 6
-/// (thorough) tokens, each a digit run with symbolic digits, a separator, a modifier in a symbolic
-/// upper/lower-case spelling, `nb` + digits, one symbolic letter, one other ASCII byte, or one
-/// multi-byte character.
+/// Grammar-directed versions (reaches `1.0alpha1nb17`-sized strings): up to 3 (quick) / 4
+/// (thorough) tokens, each a digit run (short, or 18 digits: the property's limit), a separator, a
+/// modifier in a symbolic upper/lower-case spelling, `nb` + digit, one symbolic letter, one other
+/// ASCII byte, or one two-byte character.
 pub fn h_token_strings() {
-    let n = sym::choose("ntok", sym::bound(4, 5) + 1);
+    let n = sym::choose("ntok", sym::bound(3, 4) + 1);
     let mut s = String::new();
     let mut i = 0;
+    // digit runs of more than 18 digits are outside the property: two digit tokens are never adjacent
+    // (revision digits count as a digit token too)
+    let mut prev_digit = false;
     while i < n {
-        match sym::choose("tok", 9) {
+        let t = sym::choose("tok", 7);
+        if prev_digit && t == 0 {
+            i += 1;
+            continue;
+        }
+        prev_digit = t == 0 || t == 3;
+        match t {
             0 => {
-                // digit run: 1..3 symbolic digits, or an 18-digit run (the property's limit)
                 if sym::choose("long", 2) == 1 {
-                    s.push_str("12345678901234567");
+                    s.push_str("12345678901234567"); // 17 + 1 symbolic digit = 18
                 }
-                s.push_str(&sym::any_str("d", "hex:30-39", 1, 2));
+                s.push_str(&sym::any_str("d", "hex:30-39", 1, 1));
             }
-            1 => s.push('.'),
-            2 => s.push('_'),
-            3 => {
+            1 => s.push_str(&sym::any_str("sep", "set:._", 1, 1)),
+            2 => {
                 // a modifier word, each letter in symbolic case
                 let w: &[u8] = match sym::choose("mod", 5) {
                     0 => b"alpha",
@@ -163,14 +170,13 @@ pub fn h_token_strings() {
                     k += 1;
                 }
             }
-            4 => {
+            3 => {
                 s.push_str("nb");
-                s.push_str(&sym::any_str("r", "hex:30-39", 0, 2));
+                s.push_str(&sym::any_str("r", "hex:30-39", 0, 1));
             }
-            5 => s.push_str(&sym::any_str("l", "hex:41-5a,61-7a", 1, 1)),
-            6 => s.push_str(&sym::any_str("o", "hex:21-2d,2f,3a-40,5b-5e,60,7b-7e", 1, 1)),
-            7 => s.push_str(&sym::any_str("u", "utf8", 1, 1)),
-            _ => s.push_str("0"),
+            4 => s.push_str(&sym::any_str("l", "hex:41-5a,61-7a", 1, 1)),
+            5 => s.push_str(&sym::any_str("o", "hex:21-2d,2f,3a-40,5b-5e,60,7b-7e", 1, 1)),
+            _ => s.push_str(&sym::any_str("u", "hex:c3a9,c3a0,e282ac", 1, 1)),
         }
         i += 1;
     }
